@@ -72,6 +72,9 @@ class InEpSpec(Spec):
         super().__init__(cfg, tier)
         self.mps = cfg["mps"]
         self.scripts = script_set(cfg["scripts"], self.mps)
+        if cfg.get("shard"):
+            i, n = cfg["shard"]
+            self.scripts = self.scripts[i::n]
         self.W = [script_words(t) for t in self.scripts]
         self.P = [reference_packets(t, self.mps) for t in self.scripts]
         self.words = self.pk = None          # selected per transition (see apply)
@@ -357,9 +360,9 @@ def configs(tier):
                 dict(mps=8, scripts="pairs", checks="fields", name="mps8:fields"),
                 dict(mps=16, scripts="pairs", checks="fields", name="mps16:fields"),
                 dict(mps=8, scripts="pairs", checks="flow", other=1, name="mps8:flow:other-endpoint-traffic")]
-    return [dict(mps=8, scripts="thorough", checks="flow", name="mps8:flow"),
-            dict(mps=16, scripts="thorough", checks="flow", name="mps16:flow"),
-            dict(mps=32, scripts="quick", checks="flow", name="mps32:flow"),
+    return [dict(mps=8, scripts="thorough", checks="flow", shard=[i, 3], name=f"mps8:flow:shard{i}") for i in range(3)] + \
+           [dict(mps=16, scripts="thorough", checks="flow", shard=[i, 5], name=f"mps16:flow:shard{i}") for i in range(5)] + \
+           [dict(mps=32, scripts="quick", checks="flow", name="mps32:flow"),
             dict(mps=64, scripts="pairs", checks="flow", name="mps64:flow"),
             dict(mps=8, scripts="quick", checks="fields", name="mps8:fields"),
             dict(mps=16, scripts="quick", checks="fields", name="mps16:fields"),
